@@ -906,6 +906,18 @@ class CodeBuilder:
                 raise
             self._add_pack_method_lines_lazy(method_name)
         else:
+            if (
+                self.is_nailed
+                and self.format_name != "dict"
+                and self.encoder is None
+                and self.dialect is None
+            ):
+                # this method is compiled on demand for the annotated class,
+                # an instance of a subclass must not be packed by the method
+                # it inherits
+                self.ensure_object_imported(self.cls, "_method_owner")
+                with self.indent("if self.__class__ is not _method_owner:"):
+                    self._add_pack_method_lines_lazy(method_name)
             pre_serialize = self.get_declared_hook(__PRE_SERIALIZE__)
             if pre_serialize:
                 if self.is_code_generation_option_enabled(
